@@ -710,3 +710,100 @@ def history_rule(R, cfg, lib, rid='R7'):
         if bad:
             R.violation(rid, c, fns['getUtcOffset'].loc, bad)
 
+
+def zoned_roundtrip_rule(R, cfg, lib, rid='R6'):
+    """C05 on the model zones through the real TimeZone and processors: ZonedDateTime::forEpochSeconds(e, zone) is interpreted in full
+    for the instants around every transition of 2004..2006 (and mid-months); the fields must be the UTC fields shifted by the offset the
+    interpreted reference has at e, toEpochSeconds() must give e back, toUnixSeconds() e + 946684800, and convertToTimeZone() to another
+    model zone must keep the instant and show that zone's local fields."""
+    from . import pipeline, py
+    from .aeval import AEval, AObj, CxxModule, Raised
+    from .rules_C04b import _cstring_ops
+    R.rule(rid, 'ZonedDateTime on the model zones through the real processors: instant -> fields -> instant, Unix variant, conversion to another zone (interpreted in full)', floor=4)
+    zs = py.load(cfg, 'tools/zonedb/zone_specifier.py')
+    infos, TX, _tzdb = compile_models(cfg)
+    swb = pipeline.sweep(cfg, 'basic', text=MODEL_TEXT, tag='models')
+    mod = CxxModule(lib, ['ace_time::'])
+    intr = _cstring_ops()
+    Z = 'ace_time::ZonedDateTime'
+    TZ = 'ace_time::TimeZone'
+
+    def call(f, args, recv=None):
+        return AEval(module=mod, intrinsics=intr, typed=True, max_steps=3000000).call_function(f.name, list(args), recv=recv, chosen=CxxModule._Fn(f))
+
+    def fn(q, n=None):
+        fs = [f for f in lib.fns(q) if n is None or len(f.params) == n]
+        if not fs:
+            raise AnalysisError('anchor vanished: %s' % q)
+        return fs[0]
+    f_for = fn(Z + '::forEpochSeconds', 2)
+    f_back = fn(Z + '::toEpochSeconds', 0)
+    f_unix = fn(Z + '::toUnixSeconds', 0)
+    f_conv = fn(Z + '::convertToTimeZone', 1)
+    f_err = fn(Z + '::isError', 0)
+    getters = [fn(Z + '::' + k, 0) for k in ('year', 'month', 'day', 'hour', 'minute', 'second')]
+    unix = lib.const('ace_time::LocalDate::kSecondsSinceUnixEpoch')
+    years = (2003, 2004, 2005, 2006, 2007)
+    for scope, T, cls in (('extended', TX, 'ace_time::ExtendedZoneProcessor'), ('basic', swb.T, 'ace_time::BasicZoneProcessor')):
+        graph = zone_graph(lib, T, scope)
+        zones = sorted(z for z in graph if z in infos and (scope == 'extended' or z not in BASIC_OUTSIDE))
+        mk = [f for f in lib.fns(TZ + '::forZoneInfo') if len(f.params) == 2 and any('%s::ZoneInfo' % scope in (t_ or '') for _p, t_ in f.params)][0]
+        lines = {z: reference_timeline(cfg, zs, infos[z], years) for z in zones}
+
+        def at(z, e):
+            cur = None
+            for s_, tot, _d, _a in lines[z]:
+                if s_ <= e:
+                    cur = tot
+            return cur if cur is not None else lines[z][0][1]
+        tzs = {z: call(mk, [graph[z] if 'ZoneInfo' in (pt_ or '') else _build(lib, cls) for (_pn, pt_) in mk.params]) for z in zones}
+        for k, z in enumerate(zones):
+            cands_ = [x for x in zones if x != z and x != 'Model/JanRule']
+            other = cands_[k % len(cands_)]
+            inst = set()
+            for i in range(1, len(lines[z])):
+                T_ = lines[z][i][0]
+                if 2004 <= (EPOCH + _dt.timedelta(seconds=T_)).year <= 2006:
+                    inst.update((T_ - 3600, T_ - 1, T_, T_ + 1, T_ + 3600))
+            for y in (2004, 2005, 2006):
+                inst.update(_secs(_dt.datetime(y, m, 15, 12, 0)) for m in (1, 7))
+                inst.update((_secs(_dt.datetime(y, 1, 1)) - 1, _secs(_dt.datetime(y, 1, 1))))
+            if z != 'Model/JanRule':
+                # the first and the last day of the zone data (a standard-time January / December in every model zone but the one
+                # whose rule falls on 1 January)
+                lo_, hi_ = _secs(_dt.datetime(T.context['startYear'], 1, 1)), _secs(_dt.datetime(T.context['untilYear'], 1, 1))
+                inst.update((lo_, lo_ + 43200, lo_ + 86399, hi_ - 86400, hi_ - 1))
+            c = '%s[%s,%s]' % (f_for.name, scope, z)
+            bad, n = None, 0
+            try:
+                for e in sorted(inst):
+                    n += 1
+                    zdt = call(f_for, [e, tzs[z]])
+                    txt = '%s at %s UTC' % (z, EPOCH + _dt.timedelta(seconds=e))
+                    if not isinstance(zdt, AObj) or call(f_err, [], recv=zdt):
+                        bad = bad or '%s: forEpochSeconds() gives the error value' % txt
+                        continue
+                    got = tuple(call(g, [], recv=zdt) for g in getters)
+                    w = EPOCH + _dt.timedelta(seconds=e + at(z, e))
+                    want = (w.year, w.month, w.day, w.hour, w.minute, w.second)
+                    back = call(f_back, [], recv=zdt)
+                    u = call(f_unix, [], recv=zdt)
+                    if got != want or back != e or u != e + unix:
+                        bad = bad or '%s: the fields are %s (the zone is at %+d s: %s), toEpochSeconds() gives %r, toUnixSeconds() %r (expected %d)' % (txt, got, at(z, e), want, back, u, e + unix)
+                        continue
+                    z2 = call(f_conv, [tzs[other]], recv=zdt)
+                    if not isinstance(z2, AObj) or call(f_err, [], recv=z2):
+                        bad = bad or '%s converted to %s is the error value' % (txt, other)
+                        continue
+                    got2 = tuple(call(g, [], recv=z2) for g in getters)
+                    w2 = EPOCH + _dt.timedelta(seconds=e + at(other, e))
+                    if call(f_back, [], recv=z2) != e or got2 != (w2.year, w2.month, w2.day, w2.hour, w2.minute, w2.second):
+                        bad = bad or '%s converted to %s: instant %r (expected %d), fields %s (that zone is at %+d s)' % (txt, other, call(f_back, [], recv=z2), e, got2, at(other, e))
+            except Raised as x_:
+                bad = bad or 'interpretation raises %s' % x_.what
+            except IndexError as x_:
+                bad = bad or 'a read or write outside an array (%s)' % x_
+            R.instance(rid, c, f_for.loc, '%d instants' % n)
+            if bad:
+                R.violation(rid, c, f_for.loc, bad)
+
